@@ -31,7 +31,20 @@ def scenarios(quick):
     return out
 
 
+def model_scenarios():
+    out = []
+    for ds in itertools.product((1, 2, 3), repeat=2):
+        for os_ in ((("R1", None), ("R0", None)), (("R0", "E2"), ("R1", None))):
+            fns = [[fn(d, o[0], o[1], True) for d, o in zip(ds, os_)]]
+            out.append(scenario([hg(1, 2)], fns, [start(1)]))
+            out.append(scenario([hg(1, 2, c=[cR("R1")])], fns, [start(1)]))
+    return out
+
+
 def run(ctx):
+    import tmc
+    tscen.ASYNC_FIX = tscen.async_fix_in_code()
+    tmc.model_check(ctx, "hg", model_scenarios(), ["MC_NoStuckThread", "MC_AllReturn", "MC_C09"])
     scs = scenarios(ctx.tier == "quick")
     p_c07.run_family(ctx, "hg", scs, props=("C09",))
     return vlib.finish(ctx, rule="hedge configurations (maxHedges 1-2, cancel on any result / on R1 / on E2) x every assignment of durations {0,1,2,3,5} (delay = 2) and outcomes to the attempts x "
